@@ -192,6 +192,11 @@ func (self *Compiler) compileProgram(
 			for srcIdent, fn := range self.modules[self.currModule] {
 				mappings.Functions[srcIdent] = fn.MangledName
 			}
+		} else {
+			// The init function of an imported module is called by the entry module's init function.
+			// It must not be empty (a module without globals), otherwise the VM cannot execute it.
+			self.currFn = InitFunctionIdent
+			self.insert(newPrimitiveInstruction(Opcode_Return), errors.Span{Filename: moduleName})
 		}
 	}
 
